@@ -70,7 +70,7 @@ CHECKS = {
     ),
     "C15": dict(
         text="TLC checks Session (hidden process state: SCF class attributes, the element list stored in the caller's dict, pending autograd graphs) over all call histories up to length 4-5 drawn from a pool of 9 heterogeneous jobs (tight/loose implicit-backward jobs, dict reuse with new elements, a failing call, CIS, UHF, SP2+unrolled backward, XL-BOMD MD + resume): InputsOnlyForward, InputsOnlyBackward, DictStable; the two shipped deviations are refuted as spec mutants. Histories are exported with the expected hidden state after every prefix; sampled histories are executed in one child each on the real API and after every action the real hidden state must equal the model's, and every job's outputs (energies, forces, charges, gap, CIS energies, MD phase point, gradients of summed losses) must equal bitwise those of the same job run first in a fresh process; thread counts 2/4/16 vs 1 within 1e-9.",
-        note="Driver objects are created per call (reuse of a driver across element sets is not in the pool). Shared mutable default dicts are observed to accumulate keys that are always overwritten before being read; they are reported, not modelled.",
+        note="Driver objects are created per call (reuse of a driver across element sets is not in the pool). Pool of 13 jobs incl. a far-pair system (atom pairs beyond the overlap cutoff) and a call refused inside the SCF solver. Shared mutable default dicts are observed to accumulate keys that are always overwritten before being read; they are reported, not modelled.",
         tech="explicit TLA+ model (Session) checked by TLC over call histories; TLC-exported histories replayed on the real API with hidden-state comparison after every call",
         ref="DESIGN.md §4 C15",
     ),
@@ -81,9 +81,9 @@ CHECKS = {
         ref="DESIGN.md §4 C18",
     ),
     "C19": dict(
-        text="Partial: decides (b) default cutoff drops nothing and (c) a finite cutoff drops exactly the pairs beyond it. TLC evaluates Batch!CutoffExact / SameMoleculeOnly on the enumerated lattice and on two-fragment batches at separations 8-500 A; the real Parser's pair lists are compared exactly with the specification's, and the number of two-centre integral rows built by the real calculation equals |Pairs|.",
-        note="Not decided: additivity of non-interacting fragments (asymptotic numerics). Cutoffs never coincide with an occurring distance.",
-        tech="explicit TLA+ specification (Batch pair list) evaluated by TLC; exact comparison with the real Parser and its consumers",
+        text="Decides (b) default cutoff drops nothing and (c) a finite cutoff drops exactly the pairs beyond it (a sphere, also for diagonal displacements; also after the geometry moved in MD); monitors (a) additivity. TLC evaluates Batch!CutoffExact / SameMoleculeOnly on the enumerated lattice and on two-fragment batches at separations 8-500 A along an axis and along the space diagonal; the real Parser's pair lists are compared exactly with the specification's, the number of two-centre integral rows built by the real calculation equals |Pairs|, every listed pair carries its Klopman-Ohno kernel (between R/sqrt(R^2+16) and 1 times e^2/R), and after MD steps in which atoms cross a finite cutoff the pair list held by the code is the specification's for the current geometry. Additivity: neutral closed-shell fragments (pairs, a triple; three directions, three methods) at 8..500 A - deviations of energy, forces, charges and orbital energies from the isolated fragments must stay below max(envelope of the smaller separations decayed with the leading multipole power minus 0.5, cap x (8/R)^3 resp. ^2).",
+        note="Additivity is a monitored numeric predicate with calibrated caps (5 x the largest deviation at 8 A on the unchanged tree; ratios recorded in the evidence), not a TLC computation. Cutoffs never coincide with an occurring distance.",
+        tech="explicit TLA+ specification (Batch pair list) evaluated by TLC; exact comparison with the real Parser and its consumers; monitored decay of fragment interactions",
         ref="DESIGN.md §4 C19",
     ),
     "C03": dict(
@@ -94,7 +94,7 @@ CHECKS = {
     ),
     "C09": dict(
         text="Partial: decides (b) fixed point at every buffer phase and (c) the executed recurrence is the published one for k=3..9 incl. after restart. TLC checks XLHistory (the paper's table as integers: sum rule, fixed point; slot->age alignment, overwrite-oldest, window, newest-after-resume) exhaustively for k=3..9 with crash/resume at every step; two alignment mutants must be refuted. The real XL_BOMD/KSA_XL_BOMD one_step, _propagate_P and run_from_checkpoint are observed (one-hot decoding of the applied weights, slot written, slot resumed) for every k, 3m+2 steps and a restart at buffer phases; the traces are validated against XLHistory by TLC. Monitored: XL energy/forces = SCF ones at P = converged D; fixed point on real tensors.",
-        note="Not decided: linear stability over the response range, dt^2 scaling of the shadow energy, convergence to BO (numeric). c=0.95 delta mixing modelled as coded. History handling observed with a stub electronic structure.",
+        note="Not decided: linear stability over the response range, dt^2 scaling of the shadow energy, convergence to BO (numeric). c=0.95 delta mixing modelled as coded. History handling observed with a stub electronic structure. Monitored on the real code: XL/KSA energy and forces at P = converged D equal the SCF ones; the KSA kernel update at P != D solves the Newton equation it reports (achieved residual by finite differences = published Krylov error, per molecule of a batch, ranks 1-3; the code's convention J = 1/2 dD/dP - 1 is taken as given).",
         tech="explicit TLA+ model (XLHistory) checked by TLC; traces of the real history buffer validated by TLC (XLHistoryTrace)",
         ref="DESIGN.md §4 C09",
     ),
@@ -106,7 +106,7 @@ CHECKS = {
     ),
     "C11": dict(
         text="TLC checks the run-loop model MDRun exhaustively over a cadence lattice (every stream = t0 snapshot + own multiples, capacity = rows written, cadence 0 = no rows; fresh and resumed); lattice points exported from TLC are replayed on the real run loop (4 engines, molid subsets) and every recorded hook trace plus the final files are validated against the same model by TLC (MDRunTrace), row values compared bitwise with an all-cadences-one reference run.",
-        note="Stub electronic structure in place of the SCF (run loop, writers, checkpoint, resume are the real code); the model follows the first molid's files, other molids are compared with it in Python; screen/checkpoint streams have no t=0 entry; the nonadiabatic stream cadence is exercised in C10's surface-hopping runs.",
+        note="Stub electronic structure in place of the SCF (run loop, writers, checkpoint, resume are the real code) except for the nonadiabatic stream, which is exercised with real surface-hopping runs (H2CO, CIS, fresh and resumed, values within 1e-6 of the reference); the model follows the first molid's files, other molids are compared with it in Python; screen/checkpoint streams have no t=0 entry.",
         tech="explicit TLA+ model (MDRun) checked by TLC + trace validation of the real run loop against it (MDRunTrace) on TLC-exported lattice points",
         ref="DESIGN.md §4 C11",
     ),
